@@ -1,6 +1,7 @@
 """A utility class used to manage Zorg files lives here."""
 
 from pathlib import Path
+import re
 from typing import NewType, Optional
 
 from zorg.domain.models import Note
@@ -58,8 +59,15 @@ class FileManager:
         """Removes {note} from its last known *.zo file."""
         zpage = c.prepend_zdir(self._zdir, note.file_path)
         assert note.zid is not None
+        # The first line of the note itself, i.e. '<kind> [Pn] [YYMMDD] <ZID>',
+        # as opposed to some (earlier) line that merely mentions the ZID.
+        first_line_pttrn = re.compile(
+            r"^[-ox~<>] +(?:P[0-9] +)?(?:[0-9]{6} +)?"
+            + re.escape(note.zid)
+            + r"(?: |$)"
+        )
         for i, line in enumerate(zpage.read_text().split("\n")):
-            if f" {note.zid} " in line:
+            if first_line_pttrn.match(line):
                 start_idx = i
                 break
         else:
